@@ -1,4 +1,5 @@
 \* new transactions / receipts (v10) as coded, every schedule
+\* measured (8 TLC workers shared over 3 runs): 3762090 distinct / 14307327 generated states, depth 27, 315.5s
 CONSTANTS NSubs = 1 NConn = 1 InitLen = 1 MaxLen = 3 MaxTag = 3 MaxReverts = 1 MaxL1 = 0 MaxPc = 2 MaxTx = 2 MaxGw = 0 MaxRecv = 1 MaxTicks = 0 MaxBack = 3 MaxGot = 6
   Ver = 10 Kinds <- KTxs StartAtL1 <- NoL1 NoLag = FALSE QuietSub = FALSE ReorgPrio = FALSE TeeStage = FALSE Window = FALSE FixL1None = FALSE FixL1Order = FALSE BlockIds <- BidsLatest
 INIT Init
